@@ -295,6 +295,11 @@ func Run(c Case) (pbt.Outcome, error) {
 				// one tag map per worker, refilled for every cycle and overwritten right after the call
 				// ("one map, loop over the tag values"): the library copies it on every derivation
 				tagMap := map[string]string{}
+				// handles of the previous cycle's scope object, which is closed and - once this worker has
+				// been handed its successor - reported for the last time, dropped and cleared: recording on
+				// them is harmless and shows up nowhere, in particular not in another metric
+				var staleC tally.Counter
+				var staleG tally.Gauge
 				for k := 0; k < w.Cycles; k++ {
 					var sub tally.Scope
 					if w.Tagged && c.Sanitize {
@@ -309,6 +314,12 @@ func Run(c Case) (pbt.Outcome, error) {
 						sub = root.SubScope(name)
 					}
 					cn := sub.Counter("c")
+					if staleC != nil && !(w.Tagged && c.Sanitize) {
+						staleC.Inc(1000003)
+						if staleG != nil {
+							staleG.Update(float64(-777000 - k))
+						}
+					}
 					for j := 0; j < w.PerCycle; j++ {
 						d := int64(1 + (j+k)%3)
 						cn.Inc(d)
@@ -337,8 +348,10 @@ func Run(c Case) (pbt.Outcome, error) {
 						st.last = math.Float64bits(v)
 						st.any = true
 						st.mu.Unlock()
-						sub.Gauge("g").Update(v)
+						staleG = sub.Gauge("g")
+						staleG.Update(v)
 					}
+					staleC = cn
 					if w.Child {
 						kid := sub.SubScope("k")
 						kid.Counter("c").Inc(2)
@@ -547,4 +560,4 @@ func tagSuffix(tags map[string]string) string {
 }
 
 // Rule is the text shared by the three checks' evidence.
-const Rule = "free-running mode (real parallelism, no cooperative scheduler): a generated program of 2..8 goroutines - incrementers of root counters/histograms (deltas incl. 0, negatives, int64 extremes), obtain/record/Close cyclers each on its own subscope identity (SubScope or Tagged, optional child scope, double Close; optionally under a sanitizer with the identity spelled alternately in two ways that sanitize to one), sole updaters of gauges (hostile float64 bit patterns), extra report-pass callers - runs against the library's REAL report loop (ticker interval 10..300us, or none), optionally with seeded Gosched perturbation at the verif hooks and a slow reporter, and ends with the root's Close (or two sequential passes). Oracle (exact, because every increment precedes the Close of its scope in program order): per metric (per bucket for histograms, every second one created with a different specification of equal cache identity) delivered total == sum of increments, nothing delivered under a name or bucket never recorded into; no zero delivery; no negative delta when all increments are non-negative; nothing delivered after Close returned / by a second sequential pass; every delivered gauge value was passed to Update, deliveries <= updates, last delivered == last update; no panic. Non-trivial: at least one report pass (Flush) completed while the workers were running. The program is replayable, the schedule is not (a failure is confirmed by re-running the program up to Retries times)."
+const Rule = "free-running mode (real parallelism, no cooperative scheduler): a generated program of 2..8 goroutines - incrementers of root counters/histograms (deltas incl. 0, negatives, int64 extremes), obtain/record/Close cyclers each on its own subscope identity (SubScope or Tagged, optional child scope, double Close, increments and updates through the counter and gauge handles of the PREVIOUS, dropped scope object of the identity - which must show up nowhere; optionally under a sanitizer with the identity spelled alternately in two ways that sanitize to one), sole updaters of gauges (hostile float64 bit patterns), extra report-pass callers - runs against the library's REAL report loop (ticker interval 10..300us, or none), optionally with seeded Gosched perturbation at the verif hooks and a slow reporter, and ends with the root's Close (or two sequential passes). Oracle (exact, because every increment precedes the Close of its scope in program order): per metric (per bucket for histograms, every second one created with a different specification of equal cache identity) delivered total == sum of increments, nothing delivered under a name or bucket never recorded into; no zero delivery; no negative delta when all increments are non-negative; nothing delivered after Close returned / by a second sequential pass; every delivered gauge value was passed to Update, deliveries <= updates, last delivered == last update; no panic. Non-trivial: at least one report pass (Flush) completed while the workers were running. The program is replayable, the schedule is not (a failure is confirmed by re-running the program up to Retries times)."
